@@ -16,9 +16,11 @@ import (
 
 	"github.com/google/uuid"
 	"github.com/zitadel/saml/pkg/provider"
+	"github.com/zitadel/saml/pkg/provider/key"
 
 	"verif/harness/core"
 	"verif/harness/env"
+	"verif/harness/keys"
 	"verif/harness/sim"
 	"verif/harness/spsim"
 )
@@ -37,6 +39,15 @@ func foreignCanary(text string, client int) string {
 		}
 	}
 	return ""
+}
+
+func stripSpace(s string) string {
+	return strings.Map(func(r rune) rune {
+		if r == ' ' || r == '\n' || r == '\r' || r == '\t' {
+			return -1
+		}
+		return r
+	}, s)
 }
 
 type idRegistry struct {
@@ -81,11 +92,48 @@ func c15Round(r *core.Run, idx int, rng *rand.Rand) {
 		}
 		return "https://" + host + "/saml/metadata"
 	}
+	// organisation and contact data come from the configuration; parts of them are left out in some rounds
+	switch idx % 5 {
+	case 1:
+		opts.Org = &provider.Organisation{Name: "ACME"}
+	case 2:
+		opts.Org = &provider.Organisation{Name: "ACME", DisplayName: "ACME Corp.", URL: "https://acme.example"}
+		opts.Contact = &provider.ContactPerson{ContactType: "technical", Company: "ACME", GivenName: "A", SurName: "B", EmailAddress: "ops@acme.example"}
+	case 3:
+		opts.Org = &provider.Organisation{DisplayName: "ACME Corp."}
+		opts.Contact = &provider.ContactPerson{ContactType: "support"}
+	case 4:
+		opts.Org, opts.Contact = &provider.Organisation{}, &provider.ContactPerson{}
+	}
 	e, err := env.New(opts)
 	if err != nil {
 		panic(err)
 	}
 	e.Name = fmt.Sprintf("r%d-", idx)
+	// in some rounds every virtual host has a signing key of its own, which the storage picks by the issuer in the
+	// caller's context
+	tenantKeys := idx%3 == 1
+	tenantPairs := []*keys.Pair{keys.Get("idp_resp"), keys.Get("sp3"), keys.Get("sp0"), keys.Get("sp1"), keys.Get("sp2"), keys.Get("attacker")} // not the metadata signing key, which signed metadata carries for every host
+	pairOf := func(c int) *keys.Pair {
+		if !tenantKeys {
+			return tenantPairs[0]
+		}
+		return tenantPairs[c%len(tenantPairs)]
+	}
+	if tenantKeys {
+		byHost := map[string]*key.CertificateAndKey{}
+		for c := 0; c < clients; c++ {
+			p := pairOf(c)
+			byHost[fmt.Sprintf("hc%d.idp.example", c)] = &key.CertificateAndKey{Certificate: p.CertDER, Key: p.RSA}
+		}
+		e.W.RespKeyFor = func(issuer string) *key.CertificateAndKey {
+			if u, err := url.Parse(issuer); err == nil {
+				return byHost[u.Host]
+			}
+			return nil
+		}
+		r.Count("rounds_with_a_key_per_host", 1)
+	}
 	var dctr atomic.Int64
 	e.W.Delay = func(op string) {
 		switch n := dctr.Add(1); n % 7 {
@@ -202,6 +250,20 @@ func c15Round(r *core.Run, idx int, rng *rand.Rand) {
 				}
 				if f := foreignCanary(call.D.FullText(), c); f != "" {
 					report("foreign_data_in_reply", class, fmt.Sprintf("reply to client %d contains %q", c, f), call)
+				}
+				if tenantKeys {
+					// certificates in the reply (certificate endpoint, metadata KeyDescriptor, KeyInfo of signed assertions)
+					flat := stripSpace(string(call.D.Body)) + " " + stripSpace(call.D.FullText())
+					own := pairOf(c)
+					for _, p := range tenantPairs {
+						if p != own && strings.Contains(flat, p.B64()) {
+							report("foreign_data_in_reply", class, fmt.Sprintf("reply to client %d (host %s, whose signing certificate is %q) carries the certificate %q of another host", c, st.host, own.Name, p.Name), call)
+							break
+						}
+					}
+					if (kind == "metadata" || kind == "certificate") && call.D.Status == 200 && !strings.Contains(flat, own.B64()) {
+						report("reply_not_determined_by_own_request", class, fmt.Sprintf("%s reply to client %d (host %s) does not carry the host's own signing certificate %q", kind, c, st.host, own.Name), call)
+					}
 				}
 				var found []string
 				if call.D.Msg != nil {
